@@ -53,8 +53,12 @@ ASSUMPTIONS = ['type_matching levels: strict = same dtype name; medium also '
                'model of it here (C16/C17 cover the loaders)']
 
 KINDS = ['int64', 'Int64', 'float64', 'Float64', 'float32', 'bool',
-         'boolean', 'ostr', 'string', 'pstr', 'cat', 'dt64ns']
+         'boolean', 'ostr', 'string', 'pstr', 'cat', 'dt64ns', 'dttz']
 RETYPES = {
+    # the same instants at another resolution, or as an object column of
+    # Timestamps
+    'dt64ns': ['dt_us', 'dt_obj'],
+    'dttz': ['dt_us', 'dt_obj'],
     'int64': ['int32', 'float64', 'Int64', 'ostr_num'],
     'float64': ['float32x', 'Float64'],
     'bool': ['boolean', 'int_of_bool'],
@@ -82,7 +86,7 @@ def value_for(kind):
     if kind in ('ostr', 'string', 'pstr', 'cat'):
         return st.sampled_from(['a', 'b', 'abc', '', 'é', 'x y', '12', 'NA',
                                 'B', 'zz'])
-    if kind == 'dt64ns':
+    if kind in ('dt64ns', 'dttz'):
         return st.sampled_from(['2001-01-01T00:00:00', '1999-12-31T23:59:59',
                                 '2020-02-29T12:00:00.123456',
                                 '1970-01-01T00:00:00'])
@@ -143,7 +147,7 @@ def case_strategy(draw, tier):
         # one instant moved by a fraction of a second, in a datetime column
         # (added when the frame has none)
         force_dt = True
-        if not any(c['kind'] == 'dt64ns' for c in act['cols']):
+        if not any(c['kind'] in ('dt64ns', 'dttz') for c in act['cols']):
             newc = {'name': 'c%d' % ncols, 'kind': 'dt64ns',
                     'cells': [draw(value_for('dt64ns')) for _ in range(n)]}
             ref['cols'].append(copy.deepcopy(newc))
@@ -160,7 +164,7 @@ def case_strategy(draw, tier):
             edit = info['edit'] = 'identical'
         else:
             c = draw(st.sampled_from(data_cols))
-            dts = [x for x in data_cols if x['kind'] == 'dt64ns']
+            dts = [x for x in data_cols if x['kind'] in ('dt64ns', 'dttz')]
             if edit == 'cell_big' and dts and (force_dt
                                                or draw(st.booleans())):
                 c = draw(st.sampled_from(dts))
@@ -206,7 +210,8 @@ def case_strategy(draw, tier):
                             abs(old) >= 2**53):
                         c['cells'][i] = old + (draw(st.sampled_from(
                             [1, 1, 2, 3])) if old < 2**63 - 4 else -1)
-                    elif (k == 'dt64ns' and old is not None and '.' not in old
+                    elif (k in ('dt64ns', 'dttz') and old is not None
+                          and '.' not in old
                           and (force_dt or draw(st.booleans()))):
                         # an instant a fraction of a second later (rounding
                         # to the precision is for floats, not for instants)
@@ -530,7 +535,7 @@ def valid_desc(d):
                 elif k in ('bool', 'boolean'):
                     if not isinstance(v, bool):
                         return False
-                elif k == 'dt64ns':
+                elif k in ('dt64ns', 'dttz'):
                     F.parse_dt(v)
                 elif not isinstance(v, str) or '\x00' in v:
                     return False
@@ -648,8 +653,16 @@ def build_col(c):
         s = pd.Series(np.array([np.datetime64('NaT') if v is None
                                 else np.datetime64(v) for v in cells],
                                dtype='datetime64[ns]'))
+    elif kind == 'dttz':
+        s = pd.Series(np.array([np.datetime64('NaT') if v is None
+                                else np.datetime64(v) for v in cells],
+                               dtype='datetime64[ns]')).dt.tz_localize('UTC')
     else:
         s = F.build_series({'kind': kind, 'cells': cells, 'name': 'x'})
+    if rt == 'dt_us':
+        s = s.dt.as_unit('us')
+    elif rt == 'dt_obj':
+        s = s.astype(object)
     if rt == 'int32':
         s = s.astype('int32')
     elif rt == 'float64':
